@@ -40,7 +40,15 @@ structure Handle where
   wbuf : Option (Bytes × Nat) := none
   /-- the cache was closed by a flush (`Update` closes the source it was given) -/
   bufClosed : Bool := false
+  /-- streaming read in progress: the content being piped and the bytes consumed so far -/
+  reader : Option (Bytes × Nat) := none
 deriving Repr, Inhabited
+
+/-- a streaming read that has not consumed all of its content keeps the drive (finding F22) -/
+def Handle.pending (h : Handle) : Bool :=
+  match h.reader with
+  | some (data, pos) => pos < data.length
+  | none => false
 
 def Handle.ofOpened (o : Opened) : Handle :=
   { path := o.path, link := o.link, flags := o.flags, info := Info.ofHdr o.hdr }
@@ -66,7 +74,7 @@ def writeAt (buf : Bytes) (pos : Nat) (p : Bytes) : Bytes :=
   padded.take pos ++ p ++ padded.drop (pos + p.length)
 
 /-- `enterWriteMode` -/
-def enterWriteMode (f : FsCfg) (h : Handle) : M Handle := do
+def enterWriteModeCore (f : FsCfg) (h : Handle) : M Handle := do
   match h.wbuf with
   | some _ => pure h
   | none =>
@@ -80,6 +88,10 @@ def enterWriteMode (f : FsCfg) (h : Handle) : M Handle := do
     let cur := if h.flags.append then buf.length else 0
     let buf := if h.flags.truncate then [] else buf
     pure { h with wbuf := some (buf, cur) }
+
+/-- `enterWriteMode`: a streaming read is closed first (`closeWithoutLocking`: the pipe is
+    closed and its goroutine ends), then the write cache is set up -/
+def enterWriteMode (f : FsCfg) (h : Handle) : M Handle := enterWriteModeCore f { h with reader := none }
 
 def hWrite (f : FsCfg) (h : Handle) (p : Bytes) : M (Handle × Nat) := do
   if h.info.isDir then M.fail .isDirectory else
@@ -111,12 +123,15 @@ def hSyncNoLock (f : FsCfg) (env : Env) (h : Handle) : M Handle := do
     M.op (fun w => update f.c w [src] true true env.recs)
     pure { h with info := info, wbuf := some (buf, cur), bufClosed := true }
 
-def hClose (f : FsCfg) (env : Env) (h : Handle) : M Handle := do
+def hCloseCore (f : FsCfg) (env : Env) (h : Handle) : M Handle := do
   match h.wbuf with
   | none => pure h
   | some _ =>
     let h ← hSyncNoLock f env h
     pure { h with wbuf := none, bufClosed := false }
+
+/-- `closeWithoutLocking`: close a streaming read, flush and drop the write cache -/
+def hClose (f : FsCfg) (env : Env) (h : Handle) : M Handle := hCloseCore f env { h with reader := none }
 
 def hReaddir (h : Handle) (count : Int) : M (List Info) := do
   if !h.info.isDir then M.fail .isFile else
